@@ -186,6 +186,15 @@ impl Pool {
     /// inputs + inputs generated from fixed seeds (independent of VERIF_SEED, so
     /// the same (configuration, input) pairs recur across runs and processes)
     pub fn load(repo: &str) -> Pool {
+        // (the pool asks the library whether its large inputs produce an output: in the shadow
+        // build every call into the library has to happen inside an execution)
+        let repo = repo.to_string();
+        crate::c18::in_shuttle(move || Pool::load_inner(&repo))
+    }
+
+    fn load_inner(repo: &str) -> Pool {
+        let probe = cooklang::CooklangParser::new(cooklang::Extensions::all(), cooklang::Converter::bundled());
+        let has_output = |text: &str| std::panic::catch_unwind(std::panic::AssertUnwindSafe(|| probe.parse(text).has_output())).unwrap_or(false);
         let mut inputs: Vec<String> = Vec::new();
         let path = format!("{repo}/tests/canonical.yaml");
         if let Ok(text) = std::fs::read_to_string(&path) {
@@ -237,14 +246,6 @@ impl Pool {
         }
         Pool { inputs, xl: xl_input.unwrap_or_default(), xl_den: 1500 }
     }
-}
-
-/// does a parse with all extensions and the bundled units produce an output for this text?
-fn has_output(text: &str) -> bool {
-    thread_local! {
-        static P: cooklang::CooklangParser = cooklang::CooklangParser::new(cooklang::Extensions::all(), cooklang::Converter::bundled());
-    }
-    P.with(|p| std::panic::catch_unwind(std::panic::AssertUnwindSafe(|| p.parse(text).has_output())).unwrap_or(false))
 }
 
 pub const EXT_ALL: u32 = (1 << 1) | (1 << 3) | (1 << 5) | (1 << 6) | (1 << 7) | (1 << 9) | (1 << 10) | (1 << 11);
